@@ -7,8 +7,10 @@
    length) from the state in which connect() has returned, for producers running the handler
    scripts P and the application issuing the calls C.  `atomic = false` is the thread
    granularity (every access its own step), `atomic = true` the asyncio granularity.
-   `v = pinned` is the source as it stands, `v = repaired` the same with
-   `__disconnect_final` also setting input_event.  `mreach v (init P C) c`: c is reachable
+   `v` says which source text is modelled: `pinned` is the source as it stands;
+   final_wakes_input v = true: `__disconnect_final` also sets input_event;
+   recheck_before_raise v = true: receive() re-tests the buffer before raising out of the
+   connected wait / because `connected` is False (`repaired`, `repaired_all`).  `mreach v (init P C) c`: c is reachable
    by single-access steps; every run of either granularity ends in such a state. *)
 From VT Require Import Base.PyVal Simple.SimpleClient Simple.SimpleProofs.
 Local Open Scope nat_scope.
@@ -34,7 +36,7 @@ Print Assumptions C19_pop_never_empty.
 (* a timeout fires only while the awaited flag is clear; the timeout of input_event.wait only
    while every buffered item is still being handed off (appended, not yet signalled) *)
 Theorem C19_timeout_only_if_empty : forall v P C c c' l, mreach v (init P C) c ->
-  tstep c = Some (c', l) ->
+  tstep v c = Some (c', l) ->
   (pc c = RCW WBlocked /\ cev (sh c) = false) \/
   (pc c = RIW WBlocked /\ iev (sh c) = false /\
    List.length (buf (sh c)) <= count mid_handoff (prods c)).
@@ -42,7 +44,7 @@ Proof. exact timeout_only_if_empty. Qed.
 Print Assumptions C19_timeout_only_if_empty.
 
 Theorem C19_timeout_input_wait_buffer_empty : forall v P C c c' l, mreach v (init P C) c ->
-  tstep c = Some (c', l) -> pc c = RIW WBlocked -> existsb mid_handoff (prods c) = false ->
+  tstep v c = Some (c', l) -> pc c = RIW WBlocked -> existsb mid_handoff (prods c) = false ->
   buf (sh c) = [].
 Proof. exact timeout_input_wait_buffer_empty. Qed.
 Print Assumptions C19_timeout_input_wait_buffer_empty.
@@ -52,15 +54,16 @@ Theorem C19_timeout_connected_wait_refuted :
   exists P C sched, forallb lifecycle P = true /\
     let c := run pinned false (init P C) sched in
     pc c = RCW WBlocked /\ buf (sh c) = [item_a] /\ existsb mid_handoff (prods c) = false /\
-    exists c', tstep c = Some (c', [LTimeout CE; LRaise TimeoutError]) /\
+    exists c', tstep pinned c = Some (c', [LTimeout CE; LRaise TimeoutError]) /\
                outs (sh c') = [Raised TimeoutError] /\ buf (sh c') = [item_a].
 Proof. exact timeout_connected_wait_refuted. Qed.
 Print Assumptions C19_timeout_connected_wait_refuted.
 
-(* DisconnectedError only while `connected` is False, i.e. after a final disconnect *)
+(* DisconnectedError only after a final disconnect has started, at a step that reads
+   `connected` as False (unless the source re-tests the buffer in between) *)
 Theorem C19_disconnected_after_drain : forall v P C c c' l, mreach v (init P C) c ->
-  cstep c = Some (c', l) -> In (LRaise DisconnectedError) l ->
-  conn (sh c) = false /\ ended (sh c) = true.
+  cstep v c = Some (c', l) -> In (LRaise DisconnectedError) l ->
+  ended (sh c) = true /\ (recheck_before_raise v = false -> conn (sh c) = false).
 Proof. exact disconnected_only_after_final. Qed.
 Print Assumptions C19_disconnected_after_drain.
 
@@ -69,7 +72,7 @@ Theorem C19_disconnected_while_buffered_refuted :
   exists P C sched, forallb lifecycle P = true /\
     let c := run pinned false (init P C) sched in
     buf (sh c) = [item_a] /\ existsb mid_handoff (prods c) = false /\
-    exists c', cstep c = Some (c', [LConnRead false; LRaise DisconnectedError]) /\
+    exists c', cstep pinned c = Some (c', [LConnRead false; LRaise DisconnectedError]) /\
                outs (sh c') = [Raised DisconnectedError] /\ buf (sh c') = [item_a].
 Proof. exact disconnected_while_buffered_refuted. Qed.
 Print Assumptions C19_disconnected_while_buffered_refuted.
@@ -98,29 +101,47 @@ Print Assumptions C19_quiescent_stuck.
 (* the input wait is the only place where a call can get stuck after the final disconnect *)
 Theorem C19_no_hang_except : forall v P C c, mreach v (init P C) c -> after_final c ->
   pc c = CDone \/
-  exists n, n <= 6 /\ let c' := run v false c (repeat 0 n) in
+  exists n, n <= 7 /\ let c' := run v false c (repeat 0 n) in
     after_final c' /\ (pc c' = RIW WBlocked \/ call_over c c').
 Proof. exact no_hang_except. Qed.
 Print Assumptions C19_no_hang_except.
 
 Theorem C19_input_wait_after_final : forall v c, after_final c -> pc c = RIW WBlocked ->
   if cur_timeout c
-  then exists c', tstep c = Some (c', [LTimeout IE; LRaise TimeoutError]) /\
+  then exists c', tstep v c = Some (c', [LTimeout IE; LRaise TimeoutError]) /\
                   outs (sh c') = outs (sh c) ++ [Raised TimeoutError]
   else quiescent v c = true.
 Proof. exact input_wait_after_final. Qed.
 Print Assumptions C19_input_wait_after_final.
 
-(* full strength for the repaired source: every pending and later call completes *)
-Theorem C19_no_hang_repaired : forall P C k c, mreach repaired (init P C) c -> after_final c ->
+(* full strength for a source whose __disconnect_final also sets input_event: every pending
+   and later call completes *)
+Theorem C19_no_hang_repaired : forall v P C, final_wakes_input v = true ->
+  forall k c, mreach v (init P C) c -> after_final c ->
   List.length (cscript c) <= k ->
-  pc (run repaired false c (repeat 0 (6 * k))) = CDone.
+  pc (run v false c (repeat 0 (7 * k))) = CDone.
 Proof. exact no_hang_repaired. Qed.
 Print Assumptions C19_no_hang_repaired.
 
 (* ... under ANY schedule that gives the application task enough turns (every fair one) *)
-Theorem C19_no_hang_repaired_fair : forall P C c sched, mreach repaired (init P C) c -> after_final c ->
-  6 * List.length (cscript c) <= turns sched ->
-  pc (run repaired false c sched) = CDone.
+Theorem C19_no_hang_repaired_fair : forall v P C c sched, final_wakes_input v = true ->
+  mreach v (init P C) c -> after_final c ->
+  7 * List.length (cscript c) <= turns sched ->
+  pc (run v false c sched) = CDone.
 Proof. exact no_hang_repaired_fair. Qed.
 Print Assumptions C19_no_hang_repaired_fair.
+
+(* full strength for a source with the re-test: DisconnectedError, and TimeoutError out of the
+   connected wait, only at a step that has just found the buffer empty; the timer raises only
+   out of the input wait (where C19_timeout_only_if_empty applies) *)
+Theorem C19_recheck_raises_only_if_empty : forall v c c' l, recheck_before_raise v = true ->
+  cstep v c = Some (c', l) -> recv_pc (pc c) = true ->
+  In (LRaise DisconnectedError) l \/ In (LRaise TimeoutError) l ->
+  buf (sh c) = [] /\ hd LDone l = LBufTest false.
+Proof. exact recheck_raises_only_if_empty. Qed.
+Print Assumptions C19_recheck_raises_only_if_empty.
+
+Theorem C19_recheck_timer_raises_only_in_input_wait : forall v c c' l, recheck_before_raise v = true ->
+  tstep v c = Some (c', l) -> In (LRaise TimeoutError) l -> pc c = RIW WBlocked.
+Proof. exact recheck_timer_raises_only_in_input_wait. Qed.
+Print Assumptions C19_recheck_timer_raises_only_in_input_wait.
